@@ -506,7 +506,7 @@ func init() {
 					return "const:" + tv.Value.String()
 				}
 				if ix, ok := ast.Unparen(e).(*ast.IndexExpr); ok && prog.SelField(si, ix.X) == offsets && found != nil {
-					if l, ok := linearOf(si, nil, ix.Index); ok && l[found.Name()] == 1 && len(l) <= 2 {
+					if l, ok := linearOf(si, s.Decl.Body, ix.Index); ok && l[found.Name()] == 1 && len(l) <= 2 {
 						return "offsets[found" + map[int]string{0: "", 1: "+1", -1: "-1"}[l[""]] + "]"
 					}
 				}
@@ -544,9 +544,31 @@ func init() {
 			okGuard := false
 			inspect(s.Decl.Body, func(nd ast.Node) bool {
 				if is, ok := nd.(*ast.IfStmt); ok {
-					if b, ok := ast.Unparen(is.Cond).(*ast.BinaryExpr); ok && (b.Op == token.EQL || b.Op == token.GEQ) && found != nil && prog.IdentObj(si, b.X) == found {
-						if l, ok := linearOf(si, nil, b.Y); ok && l[""] == -1 && len(l) == 2 {
-							okGuard = true
+					// found == len(offsets)-1 in any arrangement: lhs - rhs is found - len(offsets) + 1
+					if b, ok := ast.Unparen(is.Cond).(*ast.BinaryExpr); ok && (b.Op == token.EQL || b.Op == token.GEQ) && found != nil {
+						lx, ok1 := linearOf(si, s.Decl.Body, b.X)
+						ly, ok2 := linearOf(si, s.Decl.Body, b.Y)
+						if ok1 && ok2 {
+							d := map[string]int{}
+							for k, v := range lx {
+								d[k] += v
+							}
+							for k, v := range ly {
+								d[k] -= v
+							}
+							nz, lenTerm := 0, 0
+							for k, v := range d {
+								if v == 0 {
+									continue
+								}
+								nz++
+								if strings.HasPrefix(k, "len(") && v == -1 {
+									lenTerm++
+								}
+							}
+							if d[found.Name()] == 1 && d[""] == 1 && lenTerm == 1 && nz == 3 {
+								okGuard = true
+							}
 						}
 					}
 				}
